@@ -923,6 +923,10 @@ func runC06(r *Report, tier string) {
 	// admits them (shared with C05 / C13)
 	r.rule("R05.7", "(shared) every decoded countersignature header value is a non-nil pointer or a non-empty list without nil elements, so follow-up operations that dereference the elements cannot fault.")
 	checkCountersigValuePredicate(r, "R05.7")
+	// header labels and crit elements become map keys (h[label]): the value
+	// predicates that admit them must admit hashable kinds only
+	r.rule("R13.1", "(shared) the int / uint / tstr / bstr value predicates accept exactly their kind tables (no unhashable or foreign dynamic type slips through to a map index).")
+	checkValuePredicateKinds(r, "R13.1")
 	// MaxNestedLevels not raised on any decode mode
 	for _, mc := range P.modeConfigs() {
 		if mc.enc {
